@@ -315,7 +315,10 @@ func W2Size() (int, int) {
 
 // W2Heads are short foreign continuations: what follows the injected byte in family W2T.
 var W2Heads = []string{"", "e5", "E+1", "5", ".5", "0", "-1", "1e5", `"x"`, "null", "true", "ull", "rue", "alse", "[", "{", "]", "}", ",0", ":0",
-	`,"z":0`, " ", `"`, `\n"`, `u0041"`, "x", "[]", "{}", `"k":1`, ",", ":", "e", ".", "-", "+1", "1", " 1", `\"`, "\\", "/"}
+	`,"z":0`, " ", `"`, `\n"`, `u0041"`, "x", "[]", "{}", `"k":1`, ",", ":", "e", ".", "-", "+1", "1", " 1", `\"`, "\\", "/",
+	// richer continuations: a well-formed float / string / container AFTER the fault, so that an
+	// error flag that is set and later overwritten shows (seeded changes C01r5-m1, C02r5-m2)
+	`"k":1.5`, `"k":[2e3]`, "[1.5]", `{"q":1e2}`, "2.5E-1", `0,1.5`, `"s",0.5e1`}
 
 // closersFor returns what closes the containers (and string) left open by prefix.
 func closersFor(prefix string) string {
@@ -556,7 +559,7 @@ func W1N(sink Sink) {
 // position (seeded change C02r3-m2: a backslash right after a complete unicode escape in a
 // LATER array element).
 func W1S(sink Sink) {
-	esc := []string{`\n`, `\"`, `\\`, `\/`, `\b`, `\t`, `\u00e9`, `\u0041`, `\ud83d\ude00`, `\ud800`, `\uDFFF`}
+	esc := []string{`\n`, `\"`, `\\`, `\/`, `\b`, `\t`, `\u00e9`, `\u0041`, `\ud83d\ude00`, `\ud800`, `\uDFFF`, `]`, `}`, `[`, `{`, `,`, `:`} // the last six: structural bytes as string content next to escapes (seeded change C08r5-m2)
 	c := &h.Case{Family: "W1S"}
 	c.DescFn = func(c *h.Case) string {
 		return fmt.Sprintf("escape pair (%q,%q) shape %d position %d", esc[c.P[0]], esc[c.P[1]], c.P[2], c.P[3])
